@@ -16,8 +16,8 @@ from checks import brokerlib, inboundlib
 def check(run):
     thorough = run.tier == "thorough"
     run.model_check("MC_Inbound", "MC_Inbound.cfg")
-    hs = inboundlib.gen(run, "two", [1, 2, 3], ["c1", "c2"], ["m1", "m2", "m3"], [1], 3 if not thorough else 4)
-    hs += inboundlib.gen(run, "sim", [1, 2, 3], ["c1", "c2"], ["m1", "m2", "m3", "m4"], [1, 2], 7, simulate="num=%d" % (300 if thorough else 15))
+    hs = inboundlib.gen(run, "two", [1, 2, 3], ["c1", "c2"], ["m1", "m2", "m5"], [1], 3 if not thorough else 4)
+    hs += inboundlib.gen(run, "sim", [1, 2, 3], ["c1", "c2"], ["m1", "m2", "m3", "m4", "m5"], [1, 2], 7, simulate="num=%d" % (300 if thorough else 15))
     hs = [h for h in hs if any(o["op"] == "pub" for o in h)]
     if not thorough:
         hs = hs[:: max(1, len(hs) // 240)]
@@ -36,12 +36,12 @@ def check(run):
         "traces_validated_against_impl": validated,
         "evaluations": len(scns),
         "distinct_nontrivial": faulty,
-        "rule": "scenario = TLC-generated script of publishes (QoS 0/1/2) from publishers on nodes 1 and 2 to topics hosted on {1,2}, {2}, {1}, {} of three "
+        "rule": "scenario = TLC-generated script of publishes (QoS 0/1/2) from publishers on nodes 1 and 2 to topics hosted on {1,2}, {2}, {1}, {2,3}, {} of three "
                 "real nodes, with failures of any destination's log or RPC toggled between steps; non-trivial = contains an injected failure",
         "events_validated": nev, "trace_spec_states": tstates, "rejections": len(rejected),
         "samples": [hs[0], hs[len(hs) // 2], {"scenario": scns[-1]}],
     }, ["the publishing node's view of subscriptions is up to date (gossip is delivered between steps)",
-        "node 3 hosts no subscription: nothing may ever be appended to its log"],
+        "topic m5 is hosted on nodes 2 and 3 only (two remote destinations for a publisher on node 1), m4 nowhere"],
         violations=v.n_new)
     run.log("validated %d scripts (%d events), %d rejected (%d known)" % (validated, nev, len(rejected), v.n_known))
     return rc
